@@ -1,1 +1,702 @@
-// hook module body (h3_context): re-exports / tests that need access to items private to this module's parent.
+// hook module body (h3_context), included as `crate::protocol::context::ipa_verif_h3`.
+//
+// C16 - a record is released only after its whole batch is validated, with its verdict.
+//
+// `Batcher` is `pub(super)` in the private module `context::batcher`, so the whole case code of
+// C16 lives here; `c16.rs` in the root harness only forwards `LEVEL` and `subs`.
+//
+// Model of the callers (dzkp_malicious.rs / malicious.rs): every record r first touches its batch
+// through `get_batch(r)` (push of proof segments / MAC accumulation), then calls
+// `validate_record(r, |batch_index, batch| check)` exactly once under the mutex and awaits the
+// returned future outside of it. The check closure here records its invocation and returns a gate
+// future whose completion and verdict the harness schedules.
+
+use std::{
+    future::Future,
+    pin::Pin,
+    sync::{Arc, Mutex as StdMutex},
+    task::{Context, Poll, Waker},
+};
+
+use serde_json::{Value, json};
+
+use super::batcher::Batcher;
+use crate::{
+    error::Error,
+    helpers::TotalRecords,
+    ipa_verif::common::{detexec::DetExec, *},
+    protocol::RecordId,
+    sync::Mutex,
+};
+
+pub const LEVEL: &str = "exploration";
+
+/// protocol-defined batch state of the test: the index the constructor was given and what the
+/// records pushed
+#[derive(Debug, Clone, PartialEq, Eq)]
+pub struct TB {
+    ctor: usize,
+    items: Vec<(usize, u32)>,
+}
+
+#[derive(Default)]
+struct Log {
+    clock: u64,
+    verdict: Vec<bool>,
+    gate: Vec<bool>,
+    gate_waker: Vec<Option<Waker>>,
+    invoked: Vec<u32>,
+    invoked_at: Vec<u64>,
+    invoked_with: Vec<Option<TB>>,
+    check_done_at: Vec<Option<u64>>,
+    arrived_at: Vec<Option<u64>>,
+    resolved: Vec<Option<(u64, bool, String)>>,
+    bad_index: Option<usize>,
+}
+
+impl Log {
+    fn tick(&mut self) -> u64 {
+        self.clock += 1;
+        self.clock
+    }
+}
+
+type SharedLog = Arc<StdMutex<Log>>;
+
+struct CheckFut {
+    log: SharedLog,
+    idx: usize,
+}
+
+impl Future for CheckFut {
+    type Output = Result<(), Error>;
+    fn poll(self: Pin<&mut Self>, cx: &mut Context<'_>) -> Poll<Self::Output> {
+        let mut guard = self.log.lock().unwrap();
+        let g: &mut Log = &mut guard;
+        let i = self.idx;
+        if i >= g.gate.len() {
+            return Poll::Ready(Ok(()));
+        }
+        if g.gate[i] {
+            let t = g.tick();
+            g.check_done_at[i] = Some(t);
+            Poll::Ready(if g.verdict[i] { Ok(()) } else { Err(Error::DZKPValidationFailed) })
+        } else {
+            g.gate_waker[i] = Some(cx.waker().clone());
+            Poll::Pending
+        }
+    }
+}
+
+#[derive(Clone, Copy, Debug, PartialEq, Eq, Hash)]
+enum Ev {
+    /// record r touches its batch (get_batch + push)
+    Push(usize),
+    /// record r calls validate_record and its wait starts being polled
+    Arrive(usize),
+    /// the check of batch b is allowed to finish
+    Gate(usize),
+}
+
+#[derive(Clone, Copy, Debug, PartialEq, Eq, Hash)]
+enum Mode {
+    /// after every event all waits are polled once in creation order (as a sequential join does,
+    /// woken or not), then the woken ones until nothing is runnable
+    Sequential,
+    /// after every event a generated number of woken waits is polled in a generated order
+    Concurrent,
+}
+
+struct Sc {
+    rpb: usize,
+    total: usize,
+    events: Vec<Ev>,
+    verdict: Vec<bool>,
+    mode: Mode,
+    /// the total is declared after construction (set_total_records) instead of in `new`
+    late_total: bool,
+}
+
+impl Sc {
+    fn nb(&self) -> usize {
+        self.total.div_ceil(self.rpb)
+    }
+    fn json(&self) -> Value {
+        json!({
+            "records_per_batch": self.rpb, "total": self.total, "mode": format!("{:?}", self.mode), "late_total": self.late_total,
+            "failing_batches": self.verdict.iter().enumerate().filter(|(_, v)| !**v).map(|(i, _)| i).collect::<Vec<_>>(),
+            "events": self.events.iter().map(|e| match e { Ev::Push(r) => format!("push{r}"), Ev::Arrive(r) => format!("validate{r}"), Ev::Gate(b) => format!("finish_check{b}") }).collect::<Vec<_>>(),
+        })
+    }
+}
+
+struct Rig {
+    batcher: Mutex<Batcher<'static, TB>>,
+    log: SharedLog,
+    exec: DetExec<'static>,
+    /// model: pushes per batch in push order
+    pushes: Vec<Vec<(usize, u32)>>,
+    seq: u32,
+    rpb: usize,
+    /// task id of the wait of record r
+    task_of: Vec<Option<usize>>,
+}
+
+impl Rig {
+    fn new(sc: &Sc) -> Self {
+        let nb = sc.nb();
+        let log = Arc::new(StdMutex::new(Log {
+            verdict: sc.verdict.clone(),
+            gate: vec![false; nb],
+            gate_waker: vec![None; nb],
+            invoked: vec![0; nb],
+            invoked_at: vec![0; nb],
+            invoked_with: vec![None; nb],
+            check_done_at: vec![None; nb],
+            arrived_at: vec![None; sc.total],
+            resolved: vec![None; sc.total],
+            ..Log::default()
+        }));
+        let ctor: Box<dyn Fn(usize) -> TB + Send + 'static> = Box::new(|idx| TB { ctor: idx, items: vec![] });
+        let batcher = if sc.late_total {
+            let b = Batcher::new(sc.rpb, TotalRecords::Unspecified, ctor);
+            b.lock().unwrap().set_total_records(TotalRecords::specified(sc.total).unwrap());
+            b
+        } else {
+            Batcher::new(sc.rpb, TotalRecords::specified(sc.total).unwrap(), ctor)
+        };
+        Self { batcher, log, exec: DetExec::new(), pushes: vec![vec![]; nb], seq: 0, rpb: sc.rpb, task_of: vec![None; sc.total] }
+    }
+
+    fn push(&mut self, r: usize) {
+        self.seq += 1;
+        let item = (r, self.seq);
+        self.batcher.lock().unwrap().get_batch(RecordId::from(r)).batch.items.push(item);
+        self.pushes[r / self.rpb].push(item);
+    }
+
+    /// validate_record(r) with the recording closure; returns the wait future
+    fn request(&self, r: usize) -> impl Future<Output = Result<(), Error>> + use<> {
+        let log = Arc::clone(&self.log);
+        self.batcher.lock().unwrap().validate_record(RecordId::from(r), move |idx, b: TB| {
+            {
+                let mut guard = log.lock().unwrap();
+                let g: &mut Log = &mut guard;
+                let t = g.tick();
+                if idx < g.invoked.len() {
+                    g.invoked[idx] += 1;
+                    g.invoked_at[idx] = t;
+                    g.invoked_with[idx] = Some(b);
+                } else {
+                    g.bad_index = Some(idx);
+                }
+            }
+            CheckFut { log, idx }
+        })
+    }
+
+    fn arrive(&mut self, r: usize) {
+        {
+            let mut g = self.log.lock().unwrap();
+            let t = g.tick();
+            g.arrived_at[r] = Some(t);
+        }
+        let fut = self.request(r);
+        let log = Arc::clone(&self.log);
+        let id = self.exec.spawn(async move {
+            let res = fut.await;
+            let mut g = log.lock().unwrap();
+            let t = g.tick();
+            g.resolved[r] = Some((t, res.is_ok(), format!("{res:?}")));
+        });
+        self.task_of[r] = Some(id);
+    }
+
+    fn gate(&mut self, b: usize) {
+        let w = {
+            let mut g = self.log.lock().unwrap();
+            g.tick();
+            g.gate[b] = true;
+            g.gate_waker[b].take()
+        };
+        if let Some(w) = w {
+            w.wake();
+        }
+    }
+
+    fn apply(&mut self, e: Ev) {
+        match e {
+            Ev::Push(r) => self.push(r),
+            Ev::Arrive(r) => self.arrive(r),
+            Ev::Gate(b) => self.gate(b),
+        }
+    }
+
+    fn poll_after_event(&mut self, mode: Mode, sched: &mut Src<'_>) {
+        match mode {
+            Mode::Sequential => {
+                for id in 0..self.exec.len() {
+                    if !self.exec.is_done(id) {
+                        self.exec.poll(id);
+                    }
+                }
+                while self.exec.step_runnable(|_| 0).is_some() {}
+            }
+            Mode::Concurrent => {
+                let k = sched.below(4);
+                for _ in 0..k {
+                    if self.exec.step_runnable(|n| sched.idx(n)).is_none() {
+                        break;
+                    }
+                }
+            }
+        }
+    }
+
+    /// run until nothing is runnable; true if every wait finished
+    fn quiesce(&mut self, sched: &mut Src<'_>) -> bool {
+        self.exec.run(|n| sched.idx(n), 100_000).is_ok()
+    }
+}
+
+fn batch_size(sc: &Sc, b: usize) -> usize {
+    sc.rpb.min(sc.total - b * sc.rpb)
+}
+
+/// oracle over the recorded history of a complete valid scenario
+fn judge(env: &Env, sc: &Sc, rig: &Rig, all_done: bool) -> Result<(), CaseErr> {
+    let g = rig.log.lock().unwrap();
+    let case = || json!({"scenario": sc.json(), "closure_invocations": g.invoked, "resolved": g.resolved.iter().map(|r| r.as_ref().map(|(t, ok, e)| json!([t, ok, e]))).collect::<Vec<_>>()});
+    if let Some(i) = g.bad_index {
+        known_or_violation(env, "batch-index-out-of-range", format!("check closure invoked for batch {i}, but there are only {} batches", sc.nb()), case())?;
+    }
+    for b in 0..sc.nb() {
+        let recs: Vec<usize> = (b * sc.rpb..b * sc.rpb + batch_size(sc, b)).collect();
+        if g.invoked[b] != 1 {
+            known_or_violation(env, "check-count", format!("the check of batch {b} (records {recs:?}) ran {} times instead of exactly once", g.invoked[b]), case())?;
+            continue;
+        }
+        let last_arrival = recs.iter().map(|r| g.arrived_at[*r].unwrap_or(u64::MAX)).max().unwrap();
+        if g.invoked_at[b] < last_arrival {
+            known_or_violation(env, "check-before-batch-full", format!("the check of batch {b} started before all of its records {recs:?} had requested validation"), case())?;
+        }
+        let want = TB { ctor: b, items: rig.pushes[b].clone() };
+        if g.invoked_with[b].as_ref() != Some(&want) {
+            known_or_violation(env, "batch-content", format!("the check of batch {b} received {:?}, expected {want:?}", g.invoked_with[b]), case())?;
+        }
+    }
+    for r in 0..sc.total {
+        let b = r / sc.rpb;
+        match &g.resolved[r] {
+            None => {
+                if all_done {
+                    continue;
+                }
+                known_or_violation(env, "wait-never-completes", format!("record {r}: all records requested validation and all checks finished, but its wait did not complete"), case())?;
+            }
+            Some((t, ok, err)) => {
+                match g.check_done_at[b] {
+                    Some(done) if done < *t => {}
+                    _ => known_or_violation(env, "released-before-check", format!("record {r} was released at t={t} but the check of its batch {b} finished at {:?}", g.check_done_at[b]), case())?,
+                }
+                if *ok != sc.verdict[b] {
+                    known_or_violation(env, "wrong-verdict", format!("record {r}: wait returned {err} but the check of batch {b} returned {}", if sc.verdict[b] { "Ok" } else { "Err" }), case())?;
+                }
+            }
+        }
+    }
+    Ok(())
+}
+
+/// run a complete valid scenario and judge it
+fn run_valid(env: &Env, sc: &Sc, sched: &mut Src<'_>) -> Result<Vec<String>, CaseErr> {
+    let mut rig = Rig::new(sc);
+    let mut early_release: Option<usize> = None;
+    for e in &sc.events {
+        rig.apply(*e);
+        rig.poll_after_event(sc.mode, sched);
+        // a wait must never be over while a record of its batch has not asked yet
+        let g = rig.log.lock().unwrap();
+        for r in 0..sc.total {
+            if g.resolved[r].is_some() && early_release.is_none() {
+                let b = r / sc.rpb;
+                let full = (b * sc.rpb..b * sc.rpb + batch_size(sc, b)).all(|x| g.arrived_at[x].is_some());
+                if !full {
+                    early_release = Some(r);
+                }
+            }
+        }
+    }
+    if let Some(r) = early_release {
+        known_or_violation(env, "released-before-batch-full", format!("record {r} was released before every record of its batch had requested validation"), json!({"scenario": sc.json()}))?;
+    }
+    let all_done = rig.quiesce(sched);
+    judge(env, sc, &rig, false)?;
+    let _ = all_done;
+    let mut labels = vec![format!("mode:{:?}", sc.mode), format!("rpb={}", sc.rpb)];
+    if sc.total % sc.rpb != 0 {
+        labels.push("partial-last-batch".into());
+    }
+    if sc.verdict.iter().any(|v| !*v) {
+        labels.push("failing-batch".into());
+    }
+    if sc.verdict.iter().any(|v| !*v) && sc.verdict.iter().any(|v| *v) {
+        labels.push("mixed-verdicts".into());
+    }
+    {
+        let g = rig.log.lock().unwrap();
+        // batches closed (check invoked) out of index order / finished out of index order
+        let mut by_invocation: Vec<(u64, usize)> = (0..sc.nb()).map(|b| (g.invoked_at[b], b)).collect();
+        by_invocation.sort_unstable();
+        if by_invocation.windows(2).any(|w| w[0].1 > w[1].1) {
+            labels.push("batches-close-out-of-order".into());
+        }
+        let mut by_done: Vec<(u64, usize)> = (0..sc.nb()).map(|b| (g.check_done_at[b].unwrap_or(0), b)).collect();
+        by_done.sort_unstable();
+        if by_done.windows(2).any(|w| w[0].1 > w[1].1) {
+            labels.push("checks-finish-out-of-order".into());
+        }
+        let arrivals: Vec<usize> = sc.events.iter().filter_map(|e| if let Ev::Arrive(r) = e { Some(*r) } else { None }).collect();
+        if arrivals.windows(2).any(|w| w[0] > w[1]) {
+            labels.push("records-arrive-out-of-order".into());
+        }
+    }
+    if sc.late_total {
+        labels.push("total-declared-late".into());
+    }
+    let empty = rig.batcher.lock().unwrap().is_empty();
+    labels.push(if empty { "batcher-empty-at-end".into() } else { "batcher-not-empty-at-end".into() });
+    Ok(labels)
+}
+
+// ------------------------------------------------------------------------------------------
+// exhaustive: all arrival permutations of n <= 7 records
+// ------------------------------------------------------------------------------------------
+
+const FACT: [u64; 8] = [1, 1, 2, 6, 24, 120, 720, 5040];
+
+fn nth_perm(n: usize, mut k: u64) -> Vec<usize> {
+    let mut items: Vec<usize> = (0..n).collect();
+    let mut out = vec![];
+    for i in (0..n).rev() {
+        let f = FACT[i];
+        out.push(items.remove((k / f) as usize));
+        k %= f;
+    }
+    out
+}
+
+/// failing-batch subsets used for `nb` batches: all of them when there are at most 16 (or in the
+/// thorough tier), otherwise a fixed representative selection
+fn masks(nb: usize, thorough: bool) -> Vec<u32> {
+    let full = (1u32 << nb) - 1;
+    if nb <= 4 || thorough {
+        return (0..=full).collect();
+    }
+    let mut v = vec![0, full, 0x55 & full, 0xAA & full];
+    for i in 0..nb {
+        v.push(1 << i);
+    }
+    v.push(full ^ 1);
+    v.push(full ^ (1 << (nb - 1)));
+    v.push(0b0110 & full);
+    v.sort_unstable();
+    v.dedup();
+    v
+}
+
+const VARIANTS: u64 = 16; // mode (2) x gate pattern (4) x push pattern (2)
+
+fn group_count(rpb: usize, n: usize, thorough: bool) -> u64 {
+    FACT[n] * masks(n.div_ceil(rpb), thorough).len() as u64 * VARIANTS
+}
+
+fn perms_total(thorough: bool) -> u64 {
+    let mut t = 0;
+    for rpb in 1..=4 {
+        for n in 1..=7 {
+            t += group_count(rpb, n, thorough);
+        }
+    }
+    t
+}
+
+fn index(src: &mut Src<'_>) -> u64 {
+    let lo = u64::from(src.raw());
+    let hi = u64::from(src.raw());
+    lo | (hi << 32)
+}
+
+/// deterministic pseudo-random choices for the poll schedule of an enumerated case
+fn derived_choices(seed: u64, n: usize) -> Vec<u32> {
+    let mut s = seed.wrapping_mul(0x9E37_79B9_7F4A_7C15) | 1;
+    (0..n)
+        .map(|_| {
+            s ^= s << 13;
+            s ^= s >> 7;
+            s ^= s << 17;
+            (s >> 16) as u32
+        })
+        .collect()
+}
+
+fn all_arrival_orders(env: &Env, src: &mut Src<'_>) -> CaseResult {
+    let i0 = index(src);
+    let mut i = i0;
+    let thorough = env.thorough();
+    let (mut rpb, mut n) = (1usize, 1usize);
+    'find: for r in 1..=4 {
+        for m in 1..=7 {
+            let c = group_count(r, m, thorough);
+            if i < c {
+                rpb = r;
+                n = m;
+                break 'find;
+            }
+            i -= c;
+        }
+    }
+    let variant = i % VARIANTS;
+    i /= VARIANTS;
+    let nb = n.div_ceil(rpb);
+    let ms = masks(nb, thorough);
+    let failmask = ms[(i % ms.len() as u64) as usize];
+    i /= ms.len() as u64;
+    let perm = nth_perm(n, i);
+    let mode = if variant & 1 == 0 { Mode::Sequential } else { Mode::Concurrent };
+    let gate_pattern = (variant >> 1) & 3;
+    let push_pattern = (variant >> 3) & 1;
+    let verdict: Vec<bool> = (0..nb).map(|b| (failmask >> b) & 1 == 0).collect();
+    let mut events = vec![];
+    if gate_pattern == 1 {
+        events.extend((0..nb).map(Ev::Gate));
+    }
+    if push_pattern == 1 {
+        for r in 0..n {
+            events.push(Ev::Push(r));
+            events.push(Ev::Push(r));
+        }
+    }
+    let mut arrived = vec![0usize; nb];
+    for &r in &perm {
+        if push_pattern == 0 {
+            events.push(Ev::Push(r));
+        }
+        events.push(Ev::Arrive(r));
+        let b = r / rpb;
+        arrived[b] += 1;
+        if gate_pattern == 0 && arrived[b] == rpb.min(n - b * rpb) {
+            events.push(Ev::Gate(b));
+        }
+    }
+    match gate_pattern {
+        2 => events.extend((0..nb).map(Ev::Gate)),
+        3 => events.extend((0..nb).rev().map(Ev::Gate)),
+        _ => {}
+    }
+    let sc = Sc { rpb, total: n, events, verdict, mode, late_total: false };
+    let choices = derived_choices(i0, 160);
+    let mut sched = Src::new(&choices);
+    let labels = run_valid(env, &sc, &mut sched)?;
+    Ok(CaseOk::new(n >= 2, &(rpb, n, &perm, failmask, variant), sc.json()).labels(labels))
+}
+
+// ------------------------------------------------------------------------------------------
+// random valid scenarios
+// ------------------------------------------------------------------------------------------
+
+fn gen_scenario(src: &mut Src<'_>) -> Sc {
+    let rpb = match src.below(8) {
+        0..=5 => src.urange(1, 4),
+        _ => src.urange(5, 8),
+    };
+    let total = match src.below(4) {
+        0 => src.urange(1, 7),
+        1 | 2 => src.urange(1, 16),
+        _ => src.urange(1, 30),
+    };
+    let nb = total.div_ceil(rpb);
+    let verdict: Vec<bool> = match src.below(4) {
+        0 => vec![true; nb],
+        1 => vec![false; nb],
+        _ => (0..nb).map(|_| src.chance(2, 3)).collect(),
+    };
+    // arrival order: identity, reverse, locally shuffled (as a window of concurrent records does),
+    // or any permutation
+    let perm: Vec<usize> = match src.below(5) {
+        0 => (0..total).collect(),
+        1 => (0..total).rev().collect(),
+        2 | 3 => {
+            let mut p: Vec<usize> = (0..total).collect();
+            let win = src.urange(2, 6);
+            for i in 0..total {
+                let j = (i + src.idx(win)).min(total - 1);
+                p.swap(i, j);
+            }
+            p
+        }
+        _ => src.perm(total),
+    };
+    // pushes happen at any time before the record's own request
+    let mut events: Vec<Ev> = vec![];
+    for &r in &perm {
+        let k = src.below(3);
+        for _ in 0..k {
+            // insert the push somewhere before the end (any position is before the arrival)
+            let pos = src.idx(events.len() + 1);
+            events.insert(pos, Ev::Push(r));
+        }
+        events.push(Ev::Arrive(r));
+    }
+    // finishing the checks: any time
+    let gate_order = if src.bool() { (0..nb).collect::<Vec<_>>() } else { src.perm(nb) };
+    let gate_when = src.below(3);
+    for b in gate_order {
+        let pos = match gate_when {
+            0 => events.len(),
+            1 => src.idx(events.len() + 1),
+            _ => {
+                // right after the batch closes
+                let last = (b * rpb..(b * rpb + rpb).min(total)).map(|r| events.iter().position(|e| *e == Ev::Arrive(r)).unwrap()).max().unwrap();
+                last + 1
+            }
+        };
+        events.insert(pos, Ev::Gate(b));
+    }
+    let mode = if src.bool() { Mode::Concurrent } else { Mode::Sequential };
+    Sc { rpb, total, events, verdict, mode, late_total: src.chance(1, 4) }
+}
+
+fn random_histories(env: &Env, src: &mut Src<'_>) -> CaseResult {
+    let sc = gen_scenario(src);
+    let labels = run_valid(env, &sc, src)?;
+    Ok(CaseOk::new(sc.total >= 2, &sc.json().to_string(), sc.json()).labels(labels))
+}
+
+// ------------------------------------------------------------------------------------------
+// misuse: must be rejected loudly
+// ------------------------------------------------------------------------------------------
+
+fn misuse(env: &Env, src: &mut Src<'_>) -> CaseResult {
+    let sc = gen_scenario(src);
+    let cut = src.idx(sc.events.len() + 1);
+    let mut rig = Rig::new(&sc);
+    for e in &sc.events[..cut] {
+        rig.apply(*e);
+        rig.poll_after_event(sc.mode, src);
+    }
+    if src.bool() {
+        rig.quiesce(src);
+    }
+    // classify the records
+    let (arrived, closed, checked): (Vec<bool>, Vec<bool>, Vec<bool>) = {
+        let g = rig.log.lock().unwrap();
+        let arrived: Vec<bool> = (0..sc.total).map(|r| g.arrived_at[r].is_some()).collect();
+        let closed: Vec<bool> = (0..sc.nb()).map(|b| (b * sc.rpb..b * sc.rpb + batch_size(&sc, b)).all(|r| arrived[r])).collect();
+        let checked: Vec<bool> = (0..sc.nb()).map(|b| g.check_done_at[b].is_some()).collect();
+        (arrived, closed, checked)
+    };
+    let twice_open: Vec<usize> = (0..sc.total).filter(|&r| arrived[r] && !closed[r / sc.rpb]).collect();
+    let twice_closed: Vec<usize> = (0..sc.total).filter(|&r| closed[r / sc.rpb]).collect();
+    let touch: Vec<usize> = (0..sc.total).filter(|&r| checked[r / sc.rpb]).collect();
+    let mut kinds: Vec<&'static str> = vec!["beyond-total"];
+    if !twice_open.is_empty() {
+        kinds.push("twice-in-open-batch");
+    }
+    if !twice_closed.is_empty() {
+        kinds.push("twice-in-closed-batch");
+    }
+    if !touch.is_empty() {
+        kinds.push("touch-validated-batch");
+        kinds.push("touch-validated-batch");
+    }
+    let kind = src.pick(&kinds);
+    let target = match kind {
+        "beyond-total" => sc.total + src.idx(2 * sc.rpb + 3),
+        "twice-in-open-batch" => src.pick(&twice_open),
+        "twice-in-closed-batch" => src.pick(&twice_closed),
+        _ => src.pick(&touch),
+    };
+    let case = json!({"scenario": sc.json(), "events_applied": cut, "misuse": kind, "record": target});
+    let outcome: String;
+    if kind == "touch-validated-batch" {
+        let r = catch(|| {
+            let mut b = rig.batcher.lock().unwrap();
+            let st = b.get_batch(RecordId::from(target));
+            st.batch.items.len()
+        });
+        match r {
+            Err(_) => outcome = "panic".into(),
+            Ok(len) => {
+                known_or_violation(env, "misuse-accepted:touch-validated-batch", format!("get_batch({target}) after batch {} had been validated returned a batch with {len} items instead of rejecting the access", target / sc.rpb), case.clone())?;
+                outcome = "accepted".into();
+            }
+        }
+    } else {
+        let r = catch(|| rig.request(target));
+        match r {
+            Err(_) => outcome = "panic".into(),
+            Ok(fut) => {
+                // the rejection may surface when the wait is polled
+                let slot: Arc<StdMutex<Option<Result<(), String>>>> = Arc::new(StdMutex::new(None));
+                let s2 = Arc::clone(&slot);
+                let id = rig.exec.spawn(async move {
+                    let res = fut.await;
+                    *s2.lock().unwrap() = Some(res.map_err(|e| format!("{e:?}")));
+                });
+                let polled = catch(|| {
+                    rig.exec.poll(id);
+                });
+                let mut res = slot.lock().unwrap().clone();
+                if polled.is_ok() && res.is_none() {
+                    // still waiting: let everything else finish (panics of the now inconsistent
+                    // batcher are loud rejections as well)
+                    let rest = catch(|| {
+                        for e in &sc.events[cut..] {
+                            rig.apply(*e);
+                        }
+                        for b in 0..sc.nb() {
+                            rig.gate(b);
+                        }
+                        let zeros: [u32; 0] = [];
+                        let mut z = Src::new(&zeros);
+                        rig.quiesce(&mut z);
+                    });
+                    res = slot.lock().unwrap().clone();
+                    if rest.is_err() && res.is_none() {
+                        res = Some(Err("panic later".into()));
+                    }
+                }
+                match (polled, res) {
+                    (Err(_), _) => outcome = "panic-on-poll".into(),
+                    (_, Some(Err(_))) => outcome = "error".into(),
+                    (_, Some(Ok(()))) => {
+                        known_or_violation(env, &format!("misuse-accepted:{kind}"), format!("validate_record({target}) ({kind}) completed with Ok(())"), case.clone())?;
+                        outcome = "accepted".into();
+                    }
+                    (_, None) => {
+                        // neither an error nor a panic: every other record asked, every check finished,
+                        // and this wait is still pending - the misuse was not rejected
+                        known_or_violation(env, &format!("misuse-not-rejected:{kind}"), format!("validate_record({target}) ({kind}) neither panicked nor returned an error; its wait never completes"), case.clone())?;
+                        outcome = "never-completes".into();
+                    }
+                }
+            }
+        }
+    }
+    // the rig may hold a poisoned mutex and half-finished waits: drop it without running anything
+    let _ = catch(move || drop(rig));
+    Ok(CaseOk::new(true, &(sc.json().to_string(), cut, kind, target), case).label(format!("misuse:{kind}")).label(format!("{kind}->{outcome}")))
+}
+
+pub fn subs(env: &Env) -> Vec<Sub> {
+    let t = perms_total(env.thorough());
+    vec![
+        Sub::exhaustive("all_arrival_orders", t, t, all_arrival_orders,
+            "records-per-batch 1..4 x totals n=1..7 (incl. non-multiples) x all n! orders in which the records request validation x failing-batch subsets (all 2^b for b<=4 batches; 14-16 representative subsets for 5..7 batches in the quick tier, all in the thorough tier) x {sequential round-robin polling incl. unwoken waits, concurrent polling with a derived schedule} x check completion {right after the batch closes, allowed before any record arrives, after all arrivals ascending, after all arrivals descending} x pushes {before each request, all up front}; oracle over the recorded history: each check exactly once, after its batch is full, with the pushed content; each wait ends after its batch's check with that verdict; non-trivial = n>=2"),
+        Sub::random("random_histories", 400, 600_000, 8_000_000, random_histories,
+            "records-per-batch 1..8, totals 1..30, arrival order identity / reverse / windowed shuffle / any permutation, 0..2 pushes per record at any earlier time, checks finishing in any order at any time, total declared at construction or later, sequential or concurrent polling with a generated schedule; same oracle; non-trivial = n>=2"),
+        Sub::random("misuse", 400, 400_000, 4_000_000, misuse,
+            "a generated prefix of a valid history, then one misuse: validate_record for a record that already asked (batch still open / batch closed), for a record at or beyond the declared total, or get_batch for a record of a batch whose check has finished; the call must panic or its wait must end with Err - never with Ok, never pending for ever, never handing out the batch"),
+    ]
+}
